@@ -26,8 +26,10 @@ inflation failure, 1007 for invalid text). -/
 theorem emitMessage_eq (cfg : Reader.Cfg) (codec : Codec) (st : Reader.State) (opcode : UInt8) (data : Bytes)
     (compressed parallel : Bool) :
     match Reader.emitMessage cfg codec st opcode.toNat data compressed,
-        Trans.Conn_emitMessage EmitR.ret (EmitR.deliver true) (EmitR.deliver false) compressed data st.dps.enabled st.dps.dict
-          (st.dps.size : Int) cfg.checkUtf8 opcode parallel (inflatedOf (codec.decompress cfg.readMax st.dps.dict data)) with
+        Trans.Conn_emitMessage EmitR.ret (EmitR.deliver true) (EmitR.deliver false) (msg_compressed := compressed) (msg_Data := data)
+          (c_dpsWindow_enabled := st.dps.enabled) (c_dpsWindow_dict := st.dps.dict) (c_dpsWindow_size := (st.dps.size : Int))
+          (c_config_CheckUtf8Enabled := cfg.checkUtf8) (msg_Opcode := opcode) (c_config_ParallelEnabled := parallel)
+          (inflated := inflatedOf (codec.decompress cfg.readMax st.dps.dict data)) with
     | .inl (st', ev), (dict', _, r) =>
         dict' = st'.dps.dict ∧ st'.cont = st.cont ∧ ∃ out, ev = some (.msg opcode.toNat out) ∧ r = .deliver parallel compressed opcode out
     | .inr e, (_, _, r) => ∃ c, e = .err (.coded c) ∧ r = .ret (some (.coded (UInt16.ofNat c))) := by
